@@ -2722,10 +2722,11 @@ pub fn std() -> impl Function {
             ((sum_2 - sum * sum / count) / (count - 1.)).sqrt().into()
         },
         |(intervals, _size)| match (intervals.min(), intervals.max()) {
-            // sample standard deviation of values in [min, max]: at most (max - min) / sqrt(2) (two values at the bounds)
+            // sample standard deviation of values in [min, max]: at most the square root of the bound of the variance,
+            // (max - min)^2 / 2 (two values at the bounds), computed as the value is: a square root taken last
             (Some(&min), Some(&max)) => Ok(data_type::Float::from_interval(
                 0.,
-                (max - min) / 2f64.sqrt(),
+                ((max - min) * (max - min) / 2.).sqrt(),
             )),
             _ => Ok(data_type::Float::from_min(0.)),
         },
@@ -2752,10 +2753,11 @@ pub fn std_distinct() -> impl Function {
             ((sum_2 - sum * sum / count) / (count - 1.)).sqrt().into()
         },
         |(intervals, _size)| match (intervals.min(), intervals.max()) {
-            // sample standard deviation of values in [min, max]: at most (max - min) / sqrt(2) (two values at the bounds)
+            // sample standard deviation of values in [min, max]: at most the square root of the bound of the variance,
+            // (max - min)^2 / 2 (two values at the bounds), computed as the value is: a square root taken last
             (Some(&min), Some(&max)) => Ok(data_type::Float::from_interval(
                 0.,
-                (max - min) / 2f64.sqrt(),
+                ((max - min) * (max - min) / 2.).sqrt(),
             )),
             _ => Ok(data_type::Float::from_min(0.)),
         },
